@@ -1,15 +1,16 @@
 SPECIFICATION Spec
 CONSTANTS
-  MaxSlot = 7
+  MaxSlot = 3
   MaxVer = 2
   MaxReorgs = 2
   MaxCrashes = 0
-  Gates = {}
+  Gates = {"acct"}
   Interleave = FALSE
   Cfgs <- MCCfgsOne
   OraclesFor <- MCOraclesA
-  MaxAccts = 0
-  AnswersFor <- AllAnswers
+  MaxAccts = 1
+  AnswersFor <- MCAnswers
   Deviation = {}
 INVARIANTS TypeOK JobTimeRight JobCoversExactly NoSlotTwice OneJobPerDutySlot OnlyStrictlyLaterOnStart SyncWindowRight EpochTickOnce NoFutureDutyUnscheduled NoStaleJob ReorgActedOn RefreshCompletes
+CONSTRAINT NoOverlap
 CHECK_DEADLOCK FALSE
